@@ -291,7 +291,12 @@ func Run(ctx *core.Ctx) {
 		"A third group (grace/longevity/…, grace-mode/lt-…) runs every configuration with EVERY timeout of proxy, transport and dialers at 300-500 ms " +
 		"(ConnectTimeout, DialTimeout, ReadTimeout, ReadHeaderTimeout, WriteTimeout, IdleTimeout, TLS handshake timeouts, ResponseHeaderTimeout, IdleConnTimeout): " +
 		"four tunnels at once live 3-5 times the largest of them, two trickling both ways all the time, two silent for two stretches longer than every " +
-		"timeout with bytes before, between and after; none may be cut, all deliver everything; judged directly and by the timed machine with limits (`ltrun`)")
+		"timeout with bytes before, between and after; none may be cut, all deliver everything; judged directly and by the timed machine with limits (`ltrun`). " +
+		"Known finding F48 (grace/far-end-replies-after-end-of-stream/…): on every far leg without CloseWrite the client half-closes first and the far end, " +
+		"writing every 50 ms meanwhile, replies only after it has READ end-of-stream; the property's clause (end-of-stream promptly after the last byte while " +
+		"the opposite direction keeps flowing) is evaluated as it reads and fails in the recorded way - the far end's read ends only when the grace timer " +
+		"(0.3-0.45 s through the hook) closes the tunnel -, class decided from the case alone; any other shape (closed early or late, bytes written before " +
+		"the expiry lost, other content) is a VIOLATION; the model mirrors it (`trun` with the forced close, `hrun`: far end not shown end-of-stream)")
 	ctx.Assume("the kernel's loopback TCP delivers what is written in order and signals FIN as end-of-stream (the endpoints observe through it)")
 	ctx.Assume("Go's runtime timers do not fire early and time.Now is monotonic within the process (the sharp lower bound of the grace period rests on it)")
 	ctx.Assume("socket closure is observed through forwarder's own connection tracking (conntrack OnClose → listener_cx_active / dialer_cx_active) " +
@@ -444,7 +449,11 @@ func (e *env) finalCheck(ctx *core.Ctx) {
 
 // ---- evaluation of one tunnel ----
 
-// No known-finding class is open for C03: finding F29 (class upstream-2xx-content-length: a
+// One known-finding class is open for C03: F48, connectfunc-leg-without-closewrite (a ConnectFunc
+// connection with no CloseWrite anywhere cannot relay the client's half-close). Its cases need the grace
+// period on the clock and are generated and judged in grace.go (plan "reply-after-eof", inF48); the ordinary
+// tunnels below never make a far end wait for an end-of-stream such a leg cannot show (NoWaitEOF), so no class
+// applies to them. Finding F29 (class upstream-2xx-content-length: a
 // Content-Length on the upstream proxy's 2xx reply to CONNECT made the proxy swallow that many tunnel
 // bytes) is repaired in dialvia/http.go. Replies of that shape (replyShape) are ordinary cases: a byte
 // lost behind one is a VIOLATION.
@@ -598,7 +607,7 @@ func (e *env) evaluate(ctx *core.Ctx, tc *tunnelCase, obs *tunnelObs) {
 	fails := 0
 	fail := func(clause, detail string) {
 		fails++
-		ctx.SpecFail(clause, "", tc, impl, detail) // no known-finding class is open for C03
+		ctx.SpecFail(clause, "", tc, impl, detail) // no known-finding class applies to these cases (see above)
 	}
 	for _, x := range []struct {
 		name string
